@@ -211,25 +211,41 @@ def predPairWide (tag : String) (a b : Arr) (cs : List Char) : Option String :=
       chk ((sr == 'E') == (a == b)) s!"cmp_structural-Equal≠=={tag}" ]
   | _ => some "fields"
 
-/-- the clauses about one ordered pair, `o` = the five observed letters -/
-def predPair (tag : String) (a b : Arr) (o : String) : Option String :=
+/-- `∀ i < n, f i` as a loop (no list of 2^20 indices) -/
+def allBelow (n : Nat) (f : Nat → Bool) : Bool := Id.run do
+  for i in [0:n] do
+    if !f i then return false
+  return true
+
+/-- truth table of an operand when the truth-table predicate applies: at most 12 variables, or a BIG
+    diagram (more than 4096 nodes) over at most 20 variables (2^20 evaluations are affordable once per operand) -/
+def tableOf? (a : Arr) : Option (Array Bool) :=
+  let n := numVars a
+  if n ≤ 12 ∨ (n ≤ 20 ∧ a.size > 4096) then some (ttOf a n) else none
+
+/-- the clauses about one ordered pair, `o` = the five observed letters; `ta`, `tb` = the operands'
+    truth tables when `tableOf?` provides them (computed once per case) -/
+def predPair (tag : String) (a b : Arr) (ta tb : Option (Array Bool)) (o : String) : Option String :=
   let cs := o.toList
   match cs with
   | [sz, cd, st, im, sr] =>
     let na := numVars a; let nb := numVars b
-    if na > 12 ∨ nb > 12 then predPairWide tag a b cs else
-    let ta := ttOf a na; let tb := ttOf b nb
-    let ca := popcount ta; let cb := popcount tb
-    let sub := na == nb && (List.range (2 ^ na)).all fun i => !ta[i]! || tb[i]!
-    let sup := na == nb && (List.range (2 ^ na)).all fun i => !tb[i]! || ta[i]!
-    let impSpec := if na != nb then 'N' else if sub && sup then 'E' else if sub then 'L' else if sup then 'G' else 'N'
-    firstFail [
-      chk (sz == natLetter a.size b.size) s!"cmp_size{tag}",
-      chk (cd == natLetter ca cb) s!"cmp_cardinality{tag}",
-      chk (st == (if na == nb then natLetter ca cb else 'N')) s!"cmp_cardinality_strict{tag}",
-      chk (im == impSpec) s!"cmp_implies{tag}",
-      chk (sr == specStructural a b) s!"cmp_structural{tag}",
-      chk ((sr == 'E') == (a == b)) s!"cmp_structural-Equal≠=={tag}" ]
+    match ta, tb with
+    | some ta, some tb =>
+      let ca := popcount ta; let cb := popcount tb
+      let sub := na == nb && allBelow (2 ^ na) fun i => !ta[i]! || tb[i]!
+      let sup := na == nb && allBelow (2 ^ na) fun i => !tb[i]! || ta[i]!
+      let impSpec := if na != nb then 'N' else if sub && sup then 'E' else if sub then 'L' else if sup then 'G' else 'N'
+      firstFail [
+        chk (sz == natLetter a.size b.size) s!"cmp_size{tag}",
+        chk (cd == natLetter ca cb) s!"cmp_cardinality{tag}",
+        chk (st == (if na == nb then natLetter ca cb else 'N')) s!"cmp_cardinality_strict{tag}",
+        chk (im == impSpec) s!"cmp_implies{tag}",
+        chk (sr == specStructural a b) s!"cmp_structural{tag}",
+        chk ((sr == 'E') == (a == b)) s!"cmp_structural-Equal≠=={tag}",
+        -- the exact counts of the proved model are the popcounts of the tables
+        chk (na > 12 → (exactCard a == ca && exactCard b == cb)) s!"model:exactCard≠popcount{tag}" ]
+    | _, _ => predPairWide tag a b cs
   | _ => some "fields"
 
 def handle (key : String) (ins obs : List String) : Verdict :=
@@ -323,8 +339,10 @@ def handle (key : String) (ins obs : List String) : Verdict :=
           chk (!(ge (col ab i) && ge (col bc i)) || ge (col ac i)) s!"transitivity≥[{i}]",
           chk (!(col ab i == 'E' && col bc i == 'E') || col ac i == 'E') s!"transitivity=[{i}]",
           chk (!total || (col ab i != 'N' && col bc i != 'N' && col ac i != 'N')) s!"totality[{i}]" ]
+      let tA := tableOf? A; let tB := tableOf? B; let tC := tableOf? C
       let fail := firstFail [
-        predPair "(a,b)" A B ab, predPair "(b,a)" B A ba, predPair "(b,c)" B C bc, predPair "(a,c)" A C ac, predPair "(a,a)" A A aa,
+        predPair "(a,b)" A B tA tB ab, predPair "(b,a)" B A tB tA ba, predPair "(b,c)" B C tB tC bc,
+        predPair "(a,c)" A C tA tC ac, predPair "(a,a)" A A tA tA aa,
         laws 0 true, laws 1 true, laws 2 false, laws 3 false, laws 4 true,
         chk (eab == b01 (A == B) && ebc == b01 (B == C) && eac == b01 (A == C)) "==≠same-array",
         chk ((col ab 4 == 'E') == (eab == "1") && (col bc 4 == 'E') == (ebc == "1") && (col ac 4 == 'E') == (eac == "1")) "structural-Equal≠==" ]
@@ -333,6 +351,7 @@ def handle (key : String) (ins obs : List String) : Verdict :=
         tags := [ "cmp", if numVars A == numVars B && numVars B == numVars C then "same-n" else "mixed-n",
                   if isCanon A && isCanon B && isCanon C then "canon" else "noncanon",
                   s!"imp{col ab 3}", if numVars A > 12 then "wide" else "narrow",
+                  if A.size > 65536 || B.size > 65536 || C.size > 65536 then "big>65536" else "small",
                   if numVars A ≥ 52 && col ab 1 != 'E' && (exactCard A + 1 == exactCard B || exactCard B + 1 == exactCard A) then "count±1" else "count-far" ] }
     | _, _, _, _ => Verdict.bad "args"
   | _, _ => Verdict.bad ("key " ++ key)
